@@ -1,4 +1,5 @@
 import Clikit.Lemmas.ParserInv
+import Clikit.Lemmas.Spelling
 /-!
 # C02 - malformed command lines are rejected with the documented errors and only those
 
@@ -71,6 +72,97 @@ theorem lenient_only_value_error (cv : Conv) (f : Fmt) (hwf : FmtWF cv f) (toks 
 true on a format without arguments and `get_argument(-1)` then indexes an empty list. -/
 theorem d24_guard_needed : hasArgAt [] (-1) = true ∧ getArgAt [] (-1) = .error (.other "IndexError") := by
   constructor <;> rfl
+
+/-! ## Single faults after a well-formed prefix
+
+`SpellsPrefix f next toks sems` (Lemmas/Spelling.lean): `toks` spell the items `sems` and stand
+before `next`.  If the items are accepted, a fault at the first token of `next` is rejected in
+strict mode with exactly the documented error, and lenient mode continues from the state reached
+before the fault (what C02 calls "never raises a parse error"). -/
+
+/-- how `parse()` ends when the token loop stops with a parse error at state `σ'` -/
+theorem parse_of_loop_error (cv : Conv) (f : Fmt) (len : Bool) (line : List Str) (e : Err) (σ' : St)
+    (hl : loopF f len line true St.empty = .error (e, σ')) (he : e = .cannotParse ∨ e = .noSuchOption) :
+    parse cv f len line = if len then (finish cv f true σ').1 else .error e := by
+  unfold loopF at hl
+  show (parseFromR true true St.empty cv f len line).1 = _
+  unfold parseFromR
+  simp only [if_true]
+  have h0 : ({ args := [], opts := [] } : St) = St.empty := rfl
+  rw [h0, hl]
+  cases len with
+  | false => simp [afterLoop]
+  | true => rcases he with h | h <;> subst h <;> simp [afterLoop]
+
+/-- **Unknown long option** (`--name` or `--name=value`, name not in the format): no-such-option -/
+theorem fault_unknown_long (cv : Conv) (f : Fmt) (len : Bool) {toks rest : List Str} {sems : List Sem} (name : Str)
+    (hn : name ≠ []) (hunk : f.getOpt? (splitEq name).1 = none) (hunk' : f.getOpt? name = none)
+    (hp : SpellsPrefix f (('-' :: '-' :: name) :: rest) toks sems) (σ' : St)
+    (hrun : runSems f len sems St.empty = .ok σ') :
+    parse cv f len (toks ++ ('-' :: '-' :: name) :: rest) =
+      if len then (finish cv f true σ').1 else .error .noSuchOption := by
+  apply parse_of_loop_error cv f len _ .noSuchOption σ' _ (Or.inr rfl)
+  apply loop_prefix_error f len hp St.empty σ' .noSuchOption _ rest rfl hrun
+  rw [step_long f len name rest σ' hn]
+  unfold parseLong
+  cases hs : splitEq name with
+  | mk a b =>
+    rw [hs] at hunk
+    cases b with
+    | some v => simp [addLong, hunk]
+    | none => simp [addLong, hunk']
+
+/-- **A value attached to a flag** (`--flag=value`): cannot-parse -/
+theorem fault_value_for_flag (cv : Conv) (f : Fmt) (len : Bool) {toks rest : List Str} {sems : List Sem} (o : Opt) (v : Str)
+    (hl : LongOK f o) (hflag : o.accepts = false)
+    (hp : SpellsPrefix f ((dd ++ o.long ++ '=' :: v) :: rest) toks sems) (σ' : St)
+    (hrun : runSems f len sems St.empty = .ok σ') :
+    parse cv f len (toks ++ (dd ++ o.long ++ '=' :: v) :: rest) =
+      if len then (finish cv f true σ').1 else .error .cannotParse := by
+  obtain ⟨h1, h2, h3⟩ := hl
+  apply parse_of_loop_error cv f len _ .cannotParse σ' _ (Or.inl rfl)
+  apply loop_prefix_error f len hp St.empty σ' .cannotParse _ rest rfl hrun
+  have hn : o.long ++ '=' :: v ≠ [] := by simp
+  simp only [dd, List.cons_append, List.nil_append, step_long f len (o.long ++ '=' :: v) rest σ' hn]
+  unfold parseLong
+  simp [splitEq_eq o.long v h2, addLong, h1, hflag]
+
+/-- **A required option value left out** (`--name` with nothing usable after it, or `--name=`):
+cannot-parse -/
+theorem fault_required_value_missing (cv : Conv) (f : Fmt) (len : Bool) {toks rest : List Str} {sems : List Sem} (o : Opt)
+    (hl : LongOK f o) (hreq : o.valReq = true) (hstop : stopsValue rest = true)
+    (hp : SpellsPrefix f ((dd ++ o.long) :: rest) toks sems) (σ' : St)
+    (hrun : runSems f len sems St.empty = .ok σ') :
+    parse cv f len (toks ++ (dd ++ o.long) :: rest) =
+      if len then (finish cv f true σ').1 else .error .cannotParse := by
+  obtain ⟨h1, h2, h3⟩ := hl
+  apply parse_of_loop_error cv f len _ .cannotParse σ' _ (Or.inl rfl)
+  apply loop_prefix_error f len hp St.empty σ' .cannotParse _ rest rfl hrun
+  simp only [dd, List.cons_append, List.nil_append, step_long f len o.long rest σ' h3,
+    parseLong_bare f o.long o rest σ' h2 h1 (Or.inr hstop)]
+  simp [contOpt, storeOpt, hreq]
+
+/-- **Unknown short option** (`-x…`, x not a short name of the format): no-such-option -/
+theorem fault_unknown_short (cv : Conv) (f : Fmt) (len : Bool) {toks rest : List Str} {sems : List Sem} (c : Char) (r : Str)
+    (hc : c ≠ '-') (hunk : f.getOpt? [c] = none)
+    (hp : SpellsPrefix f (('-' :: c :: r) :: rest) toks sems) (σ' : St)
+    (hrun : runSems f len sems St.empty = .ok σ') :
+    parse cv f len (toks ++ ('-' :: c :: r) :: rest) =
+      if len then (finish cv f true σ').1 else .error .noSuchOption := by
+  apply parse_of_loop_error cv f len _ .noSuchOption σ' _ (Or.inr rfl)
+  apply loop_prefix_error f len hp St.empty σ' .noSuchOption _ rest rfl hrun
+  rw [step_short f len c r rest σ' hc]
+  unfold parseShort
+  cases r with
+  | nil => simp [addShort, hunk]
+  | cons d ds => simp [hunk, parseShortSet]
+
+/-- **A required argument left out**: when the items are accepted and a required argument of
+the format has no value after the re-alignment, strict mode rejects with cannot-parse -/
+theorem fault_missing_required (cv : Conv) (f : Fmt) (σ1 σ2 : St)
+    (hins : insertMissing f false σ1 = .ok σ2) (hmiss : (missingArgs f σ2).isEmpty = false) :
+    (finish cv f false σ1).1 = .error .cannotParse := by
+  simp [finish, hins, hmiss]
 
 /-! Non-vacuity: a strict success, and a line rejected strictly but accepted leniently. -/
 def fmt1 : Fmt :=
